@@ -423,27 +423,18 @@ func rule156(r *core.Run) {
 		if fn == nil {
 			continue
 		}
-		var save, closeC *ssa.Call
+		var saves, closes []*ssa.Call
 		core.Instrs(fn, func(in ssa.Instruction) {
 			if c, ok := in.(*ssa.Call); ok {
 				switch r.P.CalleeName(c) {
 				case "s3afero.(*metaStore).saveMeta":
-					save = c
+					saves = append(saves, c)
 				case "invoke:github.com/spf13/afero.File.Close":
-					closeC = c
+					closes = append(closes, c)
 				}
 			}
 		})
-		ok := save != nil && closeC != nil
-		if ok {
-			for ret, ev := range returnedErrors(fn) {
-				if definitelyNil(r, ev) {
-					if !core.CheckedBefore(save, ret) || !core.CheckedBefore(closeC, ret) {
-						ok = false
-					}
-				}
-			}
-		}
+		ok := len(saves) > 0 && len(closes) > 0 && successOnlyAfter(r, fn, saves, closes)
 		r.Check(ok, "R15.6", key(fname(r, fn), "ack after close + saveMeta"), r.P.Pos(fn.Pos()), "success only after the file was closed and the metadata saved", "PutObject can acknowledge before the object file was closed or its metadata record saved (or ignores their errors)")
 		del := mustFunc(r, impl+".deleteObjectLocked")
 		if del != nil {
